@@ -1,17 +1,33 @@
+(* Preservation of SemInv.Inv: binv of every blocker.  Assembled from one lemma per control point
+   (SemPresBc.v; proof script b_script in SemPresTac.v). *)
 From Coq Require Import List Arith ZArith Bool Lia.
 Import ListNotations.
 Require Import MayV.Sync.SemModel MayV.Sync.SemInv MayV.Sync.SemTac.
+Require Export MayV.Sync.SemCase.
+Require Import MayV.Sync.SemPresBc.
 Open Scope Z_scope.
 
 Lemma pres_B s ac s' b' : Inv s -> step s ac = Some s' -> binv s' b'.
 Proof.
-  intros Hi H. g_facts Hi. pose proof (IB _ Hi b') as Hb'. unfold binv in Hb'. cbn zeta in Hb'.
-  step_cases H; unfold binv, mk; cbn [cnt q nextb A Bk ini uposts succ ung giv pre hand owe]; try exact Hb'.
-  all: a_facts Hi a; b_facts Hi (ab (A s a)); b_facts Hi (aw (A s a)).
-  all: upd_tac; cbn [tok parked reason unp rel owner fresh] in *; lists.
-  all: repeat match goal with e : ?v = _ |- _ => is_var v; subst v end.
-  all: repeat match goal with e : owner _ = _ |- _ => progress (rewrite e in * ) end.
-  all: brk; repeat match goal with |- _ /\ _ => split end; intros; brk; ap; brk; try mem.
-  all: try match goal with H : (nextb ?s <= ?b)%nat -> _ |- unp (Bk ?s ?b) = false /\ _ => apply H; lia end.
-  all: try (destruct (unp (Bk s (ab (A s a)))); brk; auto; fail).
+  intros Hi H. destruct (is_step ac) eqn:Hn; [|eapply pres_B_env; eassumption].
+  destruct ac as [a t|a|a|a|a|a]; try discriminate Hn. destruct (apc (A s a)) eqn:Epc.
+  - rewrite (step_idle s a Epc) in H. discriminate H.
+  - eapply pres_B_W0; eassumption.
+  - eapply pres_B_W0c; eassumption.
+  - eapply pres_B_W1; eassumption.
+  - eapply pres_B_W2; eassumption.
+  - eapply pres_B_WP; eassumption.
+  - eapply pres_B_WW; eassumption.
+  - eapply pres_B_E1; eassumption.
+  - eapply pres_B_E2; eassumption.
+  - eapply pres_B_E3; eassumption.
+  - eapply pres_B_E4; eassumption.
+  - eapply pres_B_P0; eassumption.
+  - eapply pres_B_K1; eassumption.
+  - eapply pres_B_K2; eassumption.
+  - eapply pres_B_K3; eassumption.
+  - eapply pres_B_K4; eassumption.
+  - eapply pres_B_Y0; eassumption.
+  - eapply pres_B_Y0c; eassumption.
+  - eapply pres_B_G0; eassumption.
 Qed.
